@@ -36,7 +36,7 @@ Section Lock.
     - destruct (f_vscopes s) as [|topu restu] eqn:Hsc; [inversion H|].
       destruct Hc as [Hio HgE]. apply Forall_app in Hio. destruct Hio as [Hi Ho].
       pose proof (gi_stack _ _ G) as St. rewrite Hsc in St. inversion St as [|top U rest Us Htop Hrest E1 E2]; subst.
-      set (s1 := mkF (f_vx s) (f_nx s) (f_rv s) (f_rn s) (f_vn s) (f_nn s) (f_inits s) (f_seen s) (f_vcnt s) (f_ncnt s)
+      set (s1 := mkF (f_own s) (gid :: f_so s) (f_vx s) (f_nx s) (f_rv s) (f_rn s) (f_vn s) (f_nn s) (f_inits s) (f_seen s) (f_vcnt s) (f_ncnt s)
                      (topu :: topu :: restu) ([] :: f_nscopes s) (f_mod s)) in *.
       set (g1 := mkGh (top :: top :: rest) (g_sn g) (g_cl g) (g_ok g)).
       assert (T1 : TI s1) by (destruct T as [a b c d f0 g0 h]; constructor; simpl; assumption).
@@ -104,13 +104,20 @@ Proof.
     destruct S as [new [_ [_ [_ [_ [A _]]]]]]. rewrite A. split; [left; reflexivity | apply incl_tl, incl_refl].
 Qed.
 
+Lemma process_value_rec_seen v s s' : process_value_rec v s = (s', None) ->
+  In v (f_seen s') /\ incl (f_seen s) (f_seen s').
+Proof.
+  intros H. destruct (process_value_rec_ok _ _ _ H) as [s1 [E ->]].
+  destruct (process_value_seen _ _ _ E) as [A B]. destruct (negb (memN v (f_seen s))); simpl; auto.
+Qed.
+
 Lemma process_values_seen ws : forall s s', process_values ws s = (s', None) ->
   incl ws (f_seen s') /\ incl (f_seen s) (f_seen s').
 Proof.
   induction ws as [|v r IH]; intros s s' H; simpl in H.
   - inversion H; subst. split; [intros x [] | apply incl_refl].
-  - unfold fbind in H. destruct (process_value v s) as [s1 [e|]] eqn:E1; simpl in H; [inversion H|].
-    destruct (process_value_seen _ _ _ E1) as [A B]. destruct (IH _ _ H) as [C D].
+  - unfold fbind in H. destruct (process_value_rec v s) as [s1 [e|]] eqn:E1; simpl in H; [inversion H|].
+    destruct (process_value_rec_seen _ _ _ E1) as [A B]. destruct (IH _ _ H) as [C D].
     split; [|eapply incl_tran; eassumption].
     intros x [<-|Hx]; [apply D; exact A | apply C; exact Hx].
 Qed.
@@ -203,13 +210,20 @@ Proof.
     destruct S as [new [_ [_ [_ [_ [_ [_ [A [B [_ [_ [_ [_ C]]]]]]]]]]]]]. auto.
 Qed.
 
+Lemma process_value_rec_nodeframe v s s' : process_value_rec v s = (s', None) ->
+  f_nn s' = f_nn s /\ f_nscopes s' = f_nscopes s /\ f_rn s' = f_rn s.
+Proof.
+  intros H. destruct (process_value_rec_ok _ _ _ H) as [s1 [E ->]].
+  pose proof (process_value_nodeframe _ _ _ E) as F. destruct (negb (memN v (f_seen s))); simpl; exact F.
+Qed.
+
 Lemma process_values_nodeframe ws : forall s s', process_values ws s = (s', None) ->
   f_nn s' = f_nn s /\ f_nscopes s' = f_nscopes s /\ f_rn s' = f_rn s.
 Proof.
   induction ws as [|v r IH]; intros s s' H; simpl in H.
   - inversion H; subst. auto.
-  - unfold fbind in H. destruct (process_value v s) as [s1 [e|]] eqn:E1; simpl in H; [inversion H|].
-    destruct (process_value_nodeframe _ _ _ E1) as [A [B C]]. destruct (IH _ _ H) as [A2 [B2 C2]].
+  - unfold fbind in H. destruct (process_value_rec v s) as [s1 [e|]] eqn:E1; simpl in H; [inversion H|].
+    destruct (process_value_rec_nodeframe _ _ _ E1) as [A [B C]]. destruct (IH _ _ H) as [A2 [B2 C2]].
     repeat split; congruence.
 Qed.
 
